@@ -262,10 +262,17 @@ func genC18(t *rapid.T) c18Case {
 	// half of the cases have a focus test that about half of the goroutines run (state shared between calls of one function:
 	// pools, scratch buffers, memo tables); the others mix all tests evenly
 	focus := -1
-	if rapid.Bool().Draw(t, "focused") {
+	if rapid.Bool().Draw(t, "focused") || large {
 		focus = rapid.IntRange(0, 14).Draw(t, "focus_test")
+		if large && focus == 12 {
+			focus = 7
+		}
 	}
-	if rapid.IntRange(0, 2).Draw(t, "repeat") == 0 { // more goroutines than processors, each calling repeatedly: preemption inside the calls
+	if large { // large inputs: always several goroutines on the focus test, repeated calls, two processors
+		nt = max(nt, 8)
+		c.Reps = rapid.IntRange(4, 12).Draw(t, "reps_large")
+		c.Procs = 2
+	} else if rapid.IntRange(0, 2).Draw(t, "repeat") == 0 { // more goroutines than processors, each calling repeatedly: preemption inside the calls
 		c.Reps = rapid.IntRange(2, 12).Draw(t, "reps")
 		if large {
 			c.Procs = 2
